@@ -61,6 +61,11 @@ def check(ctx):
     rearm(ctx, P, iters)
     armed_while_waiting(ctx, P, iters)
     records(ctx, P)
+    # shared instances: a record with start/end dates in order needs the interrupted customer to be one in service, and each PS visit to start from a clean state
+    from . import c12, c19
+    c12.interrupt_in_service(ctx, P, family_views(P, "Node"), iters)
+    if "PSNode" in P.classes:
+        c19.reproject(ctx, P, P.view("PSNode"))
     ctx.assume("distributions return non-negative samples (the property's own proviso; C10 checks the engine validates them)")
 
 
@@ -88,7 +93,7 @@ def clock(ctx, P, iters):
         if not okk:
             ctx.violation(ob, "R1.clock-source", q, unparse(node), "clock-not-from-next-event",
                           "the clock must be set to the next_event_date of the node selected as next active node (each event is executed exactly at its scheduled date)", loc(node))
-    ctx.floor("clock writes", n, 3)
+    ctx.floor("clock writes", n, 2)
     for m in ("simulate_until_max_time", "simulate_until_max_customers", "simulate_until_deadlock"):
         cls, fn = P.view("Simulation").method(m)
         k = sum(1 for x in rules.walk(P, P.view("Simulation"), fn) if isinstance(x, ast.Assign) and any(is_self_attr(t, "current_time") for t in x.targets))
@@ -108,7 +113,7 @@ def clock(ctx, P, iters):
     if not okk:
         ctx.violation(ob, "R6.scan-collection", "Simulation.__init__", "self.active_nodes", "not-all-nodes", "active_nodes must be every node but the exit (arrival node + all service nodes)", loc(init))
     writers = [x for x in rules.attr_writes(P, "active_nodes")]
-    if any(f.name != "__init__" for c, f, nd, r, h in writers):
+    if any("__init__" not in rules.effective_names(P, c, f) for c, f, nd, r, h in writers):
         ctx.violation(ob, "R6.scan-collection", "Simulation", "active_nodes", "rewritten", "active_nodes is modified after construction", "")
 
 
@@ -117,6 +122,18 @@ def _selected_node(P, view, fn, name, depth=0):
     extracted helper"""
     defs = [x for x in ast.walk(fn) if isinstance(x, ast.Assign) and any(isinstance(t, ast.Name) and t.id == name for t in x.targets)]
     if not defs:
+        # a parameter of a newly extracted helper: every call site must pass a selected node
+        params = [a.arg for a in fn.args.args]
+        if name in params and fn.name not in rules.ANCHOR_METHODS and depth < 4:
+            k = params.index(name) - 1
+            sites = [(c2, f2, call) for c2, f2, call in rules.calls_named(P, fn.name) if f2 is not fn]
+            if not sites:
+                return False
+            for c2, f2, call in sites:
+                arg = call.args[k] if 0 <= k < len(call.args) else next((kw.value for kw in call.keywords if kw.arg == name), None)
+                if not (isinstance(arg, ast.Name) and _selected_node(P, view, f2, arg.id, depth + 1)):
+                    return False
+            return True
         return False
     for d in defs:
         if not (isinstance(d.value, ast.Call) and _selecting_call(P, view, d.value, depth)):
@@ -149,14 +166,27 @@ def _selecting_call(P, view, call, depth=0):
 
 def scan_rules(ctx, P):
     ob = ctx.ob("SCAN", "arg-min scans: best starts at +inf, replaced only by a smaller key, the compared key is stored, whole collection scanned, filters on both arms, result consumed")
-    found = {}
+    found, minfilters = {}, {}
     for ci, fn in P.all_functions():
         for sc in scans.find_scans(fn):
-            q = P.func_name(fn)
-            found.setdefault(q, []).append(sc)
+            for q in ctx._anchor_wheres(P.func_name(fn)):       # a scan moved into a helper still belongs to the pinned method it serves
+                found.setdefault(q, []).append(sc)
+        for mf in scans.find_minfilters(fn):
+            if mf.how == "min-call":
+                # min(KEY(v) for v in COLL) then [v for v in COLL if KEY(v) == best]: minimal by construction over the whole collection
+                for q in ctx._anchor_wheres(P.func_name(fn)):
+                    minfilters.setdefault(q, []).append(mf)
     for q, spec in SCAN_TABLE.items():
-        if q not in found:
+        if q not in found and q not in minfilters:
             ctx.unrecognised("SCAN: no arg-min scan recognised in %s" % q)
+    for q, lst in sorted(minfilters.items()):
+        spec = SCAN_TABLE.get(q)
+        for mf in lst:
+            ob.ok("%s:%s" % (q, mf.best), "%s: %s = min(%s for %s in %s); %s = [those attaining it]" % (q, mf.best, mf.key, mf.var, mf.coll, mf.cands))
+            if spec is not None and spec[0] is not None and mf.coll != spec[0]:
+                ctx.violation(ob, "R6.argmin", q, "min over %s" % mf.coll, "scan-collection", "the minimum must be taken over the whole of %s" % spec[0], loc(mf.node))
+            if spec is not None and spec[1]:
+                ctx.unrecognised("SCAN: %s uses min()/filter but its scan has filters the two-pass form was not checked for" % q)
     for q, lst in sorted(found.items()):
         for sc in lst:
             ob.ok("%s:%s" % (q, sc.best), "%s: for %s in %s: if %s %s %s -> %s = %s" % (q, unparse(sc.loop.target), unparse(sc.loop.iter)[:40], sc.key, "<" if sc.strict else "<=", sc.best, sc.best, getattr(sc, "stored", "?")))
@@ -219,7 +249,7 @@ def scan_rules(ctx, P):
                                   "the scan in %s skips candidates under `%s`, which is not one of its stated filters: the true minimum may be overlooked" % (q, guards.show(a_)), loc(test))
     # consumers
     consumer_checks(ctx, ob, P)
-    ctx.floor("arg-min scans", sum(len(v) for v in found.values()), 9)
+    ctx.floor("arg-min scans", sum(len(v) for v in found.values()) + sum(len(v) for v in minfilters.values()), 9)
 
 
 def _arm_assigned(sc):
@@ -233,9 +263,12 @@ def consumer_checks(ctx, ob, P):
 
     sim = P.view("Simulation")
     cls, fn = sim.method("find_next_active_node")
+    post = {id(mf.scan.loop): mf.cands for mf in scans.find_minfilters(fn) if mf.how == "fold"}
     for sc in scans.find_scans(fn):
         var = unparse(sc.loop.target)
         lists = [k for k, v in _arm_assigned(sc).items() if v == "[%s]" % var]
+        if not lists and id(sc.loop) in post:
+            lists = [post[id(sc.loop)]]          # two-pass form: the minimisers are collected by a filter after the fold
         rts = sorted(ret_texts(fn))
         ob.ok("consumer:find_next_active_node", "; ".join(rts))
         # any element of the list of minimisers is a minimiser: [0], [-1] and random_choice(...) all return one
